@@ -184,6 +184,12 @@ pub fn gen_schema(t: &mut Tape, cfg: &GenCfg) -> Schema {
             }
         }
     }
+    // the order in which an object lists its interfaces is free (not the definition order)
+    for o in 0..n_objs {
+        if schema.objects[o].implements.len() > 1 && t.chance(50) {
+            schema.objects[o].implements.reverse();
+        }
+    }
     for _ in 0..n_unions {
         let name = names::type_name(t, &mut types, nc);
         let k = t.range(1, 3.min(n_objs));
@@ -218,6 +224,16 @@ pub fn gen_schema(t: &mut Tape, cfg: &GenCfg) -> Schema {
         let n = root_name(t, &mut types, "Subscription");
         schema.objects.push(ObjectT { name: n, fields: vec![], implements: vec![], ext_split: None, ext_impl_split: None, description: None });
         schema.subscription = Some(schema.objects.len() - 1);
+    }
+
+    // an ordinary object may be *called* Mutation / Subscription without being a root type (then the
+    // SDL needs the explicit `schema {}` block, see root_names_are_default)
+    if t.chance(6) {
+        if schema.mutation.is_none() && !schema.objects.iter().any(|o| o.name == "Mutation") {
+            schema.objects[0].name = "Mutation".into();
+        } else if schema.subscription.is_none() && !schema.objects.iter().any(|o| o.name == "Subscription") {
+            schema.objects[0].name = "Subscription".into();
+        }
     }
 
     // --- output field generation
@@ -361,6 +377,9 @@ pub fn gen_schema(t: &mut Tape, cfg: &GenCfg) -> Schema {
             if !impls.is_empty() && t.chance(40) {
                 schema.objects[oi].ext_impl_split = Some(impls.len() - 1);
             }
+        } else if cfg.extensions && !impls.is_empty() && t.chance(12) {
+            // `extend type X implements I` without a field block
+            schema.objects[oi].ext_impl_split = Some(impls.len() - 1);
         }
         schema.objects[oi].description = gen_desc(t);
         schema.objects[oi].fields = fields;
@@ -540,6 +559,17 @@ impl<'a> DocGen<'a> {
             return vec![Selection::Spread(t.pick(&same_type).clone())];
         }
 
+        // `{ __typename ...VariantFragment }`: an abstract selection that is exactly the tag plus one
+        // spread of a fragment on a member type
+        if parent.is_abstract() && forbidden.is_empty() && t.chance(8) {
+            let members: Vec<String> = schema.possible_types(parent).iter().map(|m| schema.objects[*m].name.clone()).collect();
+            let cands: Vec<String> = self.frags.iter().filter(|f| members.contains(&f.on)).map(|f| f.name.clone()).collect();
+            if !cands.is_empty() {
+                let n = t.pick(&cands).clone();
+                return if t.chance(50) { vec![Selection::Typename, Selection::Spread(n)] } else { vec![Selection::Spread(n), Selection::Typename] };
+            }
+        }
+
         // direct fields
         let fields = schema.fields_of(parent);
         let n_fields = if fields.is_empty() { 0 } else { t.range(if parent.is_abstract() { 0 } else { 1 }, 4) };
@@ -670,6 +700,30 @@ impl<'a> DocGen<'a> {
                         placed = true;
                     }
                 }
+                if placed && t.chance(15) {
+                    // a second *named fragment* on the same member type (two flattened parts; supported)
+                    let mut taken = BTreeSet::new();
+                    top_keys(&items[items.len() - 1..], &self.frags, &mut taken, &mut vec![]);
+                    let first_name = match items.last() {
+                        Some(Selection::Spread(n)) => Some(n.clone()),
+                        _ => None,
+                    };
+                    if let Some(first_name) = first_name {
+                        let cands: Vec<String> = self
+                            .frags
+                            .iter()
+                            .filter(|f| f.on == mname && f.name != first_name)
+                            .filter(|f| {
+                                let k = frag_top_keys(&f.name, &self.frags);
+                                k.is_disjoint(&common) && k.is_disjoint(&taken)
+                            })
+                            .map(|f| f.name.clone())
+                            .collect();
+                        if !cands.is_empty() {
+                            items.push(Selection::Spread(t.pick(&cands).clone()));
+                        }
+                    }
+                }
                 if placed && cfg.fam_double_variant && t.chance(30) {
                     let sub = self.sel_set(t, Named::Object(*m), 0, &{
                         let mut c = common.clone();
@@ -704,9 +758,13 @@ impl<'a> DocGen<'a> {
                     }
                 }
             }
-            // `__typename` is required on every interface/union selection
-            let pos = t.below(items.len() + 1);
-            items.insert(pos, Selection::Typename);
+            // `__typename` is required on every interface/union selection; a spread of a fragment on
+            // the same abstract type that selects it is enough
+            let supplied = contains_typename_for(&items, &pname, &self.frags, &mut vec![]);
+            if !(supplied && t.chance(50)) {
+                let pos = t.below(items.len() + 1);
+                items.insert(pos, Selection::Typename);
+            }
         } else {
             // object parent
             if cfg.fam_object_parent && t.chance(40) {
